@@ -549,11 +549,19 @@ class DocGen:
 
 
 def validate(dtd_txt, doc_txt):
-    """lxml's DTD validator: (valid?, error text).  Independent of xsdata."""
-    dtd = etree.DTD(io.BytesIO(dtd_txt.encode()))
+    """lxml/libxml2's DTD validator: (valid?, error text).  Independent of xsdata.
+    The DTD is given as the internal subset of the document: libxml2's validation against an externally
+    loaded DTD object compares #FIXED values with the unexpanded declaration text ("x&#38;y" for "x&amp;y")
+    and so rejects valid documents; through the parser the comparison is done on the expanded value."""
+    import re
+    m = re.match(r"\s*(?:<\?xml[^>]*\?>\s*)?<([^\s/>]+)", doc_txt)
+    if not m:
+        return False, "ill-formed: no root element"
+    body = doc_txt[m.start(1) - 1:]
+    full = f"<!DOCTYPE {m.group(1)} [\n{dtd_txt}]>\n{body}"
+    parser = etree.XMLParser(dtd_validation=True, attribute_defaults=False, resolve_entities=True)
     try:
-        doc = etree.fromstring(doc_txt.encode())
+        etree.fromstring(full.encode(), parser)
+        return True, ""
     except etree.XMLSyntaxError as e:
-        return False, "ill-formed: " + str(e)
-    ok = dtd.validate(doc)
-    return ok, "; ".join(str(e.message) for e in dtd.error_log)[:400]
+        return False, "; ".join(str(x.message) for x in parser.error_log)[:400] or str(e)
